@@ -20,6 +20,22 @@ CHECKS = {
              "regenerated from the live COMPARATORS on every run.",
         ref="6 (C04), Appendix A/E.1", technique="Coq proof (induction over the constraint list) + exhaustive small-scope model/implementation correspondence",
         note="Assumes the scheme's comparison is a total preorder and its six operators agree with it (C01/C02 of the scheme)."),
+    "C07": dict(
+        text="Theorems for every version type with a total-preorder comparison and lists of any length, order and duplication: the code-shaped model of "
+             "VersionConstraint.validate()+validate_comparators() returns True exactly on the lists whose version-ordered rearrangement satisfies the property's "
+             "sentence (a Prop-level spec with Permutation), returns ValueError otherwise, and every accepted list, as sorted by validate, is answered by the "
+             "containment scan without error (with C04's denotation). Correspondence: exhaustive over all 7^n sequences x all position assignments for n<=3 and all "
+             "comparator sequences up to the tier bound on several schemes, including differently spelled equal versions, with membership probed on the very list "
+             "object validate() sorted.",
+        ref="6 (C07)", technique="Coq proof (sorting uniqueness + list induction) + exhaustive small-scope correspondence",
+        note="Assumes C01/C02/C12 of the scheme (total preorder, consistent operators, equal versions hash alike); set() is modelled as de-duplication by ==."),
+    "C09": dict(
+        text="Theorems for every version type with a total preorder: inverting a single constraint flips membership (case analysis over the inversion table "
+             "transcribed from /repo by executing VersionConstraint.invert on every comparator); '*' has no inverse; for every non-empty well-formed non-vacuous "
+             "range of any length the model of VersionRange.invert() returns a well-formed range whose denotation and containment answer are the complement; "
+             "inverting twice returns the original list (no side condition). Correspondence exhaustive over comparator patterns up to the tier bound x all probes.",
+        ref="6 (C09)", technique="Coq proof (characterisation of the interval denotation by cut positions) + exhaustive small-scope correspondence",
+        note="Assumes C01/C02 of the scheme. The empty constraint list is not a vers range and is excluded (DESIGN section 9)."),
     "C14": dict(
         text="Finite theorems (vm_compute over the enumerated class tables, lifted by forallb_forall) re-checked on every run against tables "
              "regenerated from the live classes: every ordering operator between unrelated version classes ends in TypeError under CPython's "
